@@ -71,7 +71,7 @@ REQUIRED = ['kind:em', 'kind:mech', 'kind:sbml', 'kind:pop', 'kind:ll', 'kind:pr
             'kind:ctrlpop', 'op:fix', 'op:refix', 'op:release', 'op:mixed', 'op:release_all', 'op:bogus', 'op:rename',
             'op:copy', 'op:sens', 'op:nids', 'op:dims', 'op:set_data', 'all_fixed', 'late_n_ids', 'exhaustive', 'sbml:admin',
             'fix_arg:one_shot_iterable',
-            'pop:bare', 'pop:pooled', 'pop:hetero', 'pop:cov', 'sens_while_fixed']
+            'pop:bare', 'pop:pooled', 'pop:hetero', 'pop:cov', 'sens_while_fixed', 'em:user_defined:outer_two_fixed']
 
 KIND_MENU = ['em', 'em', 'mech', 'mech', 'sbml', 'pop', 'pop', 'pop', 'll', 'll', 'pred', 'poppred', 'ctrl', 'ctrlpop']
 CHEAP = ('em', 'mech', 'pop', 'll', 'pred')
@@ -87,7 +87,7 @@ def _dims(n):
 
 
 def _draw_em(draw):
-    kind = draw(st.sampled_from(llbuild.EM_KINDS))
+    kind = draw(st.sampled_from(list(llbuild.EM_KINDS) + ['user3', 'user3']))
     n = draw(st.integers(1, 5))
     p = draw(st.integers(0, 3))
     ybar = gen.distinct(draw(gen.vec(gen.logu(0.05, 50.0), n)))
@@ -465,6 +465,10 @@ def classify(spec):
     labs = ['kind:' + kind]
     if spec.get('exhaustive'):
         labs.append('exhaustive')
+    if kind == 'em' and spec['obj'].get('em') == 'user3':
+        labs.append('em:user_defined_three_parameters')
+        if any(sorted(after) in ([0, 2],) for _, _, after in _trace(spec)):
+            labs.append('em:user_defined:outer_two_fixed')
     sens = False
     for op, before, after in _trace(spec):
         o = op['op']
